@@ -525,7 +525,8 @@ func Validate(d *spec.Design, v any, a *spec.Attr, path string) []Violation {
 		for _, f := range t.Fields {
 			fv := obj[f.Name]
 			if fv == nil {
-				if f.Required {
+				// Go cannot tell an absent collection from an empty one (nil slice or map)
+				if k := d.Resolve(f.Type).Kind; f.Required && k != spec.Array && k != spec.Map && k != spec.Bytes {
 					out = append(out, Violation{path + "." + f.Name, "required"})
 				}
 				continue
